@@ -22,7 +22,9 @@ func BeginBlocker(ctx sdk.Context, k keeper.Keeper) {
 	vestedCoins := sdk.NewCoins()
 	for _, reward := range params.PerBlockReward {
 		remainingCoin := k.GetRemainingCoin(ctx, reward.GetDenom())
-		if remainingCoin.IsZero() {
+		// a denomination may be listed more than once: earlier entries already took their share
+		remainingCoin.Amount = remainingCoin.Amount.Sub(vestedCoins.AmountOf(reward.GetDenom()))
+		if !remainingCoin.IsPositive() {
 			continue
 		}
 		if remainingCoin.Amount.LT(reward.Amount) {
